@@ -1,6 +1,7 @@
 import SpoxModel.Model.Singleton
 import SpoxModel.Lemmas.Singleton
 import SpoxModel.Generated.C05Overrides
+import SpoxModel.Model.MLOnnx
 /-! Property theorems for C05 (only property-level statements and non-vacuity examples live here). -/
 set_option linter.unusedSimpArgs false
 set_option linter.unusedVariables false
@@ -1021,5 +1022,76 @@ example : scanFormals [.seq (.tensor 1 none)] 1 = none := by decide
 example : seqMapFormals (.seq (.tensor 1 (some [.const 2]))) [.seq (.tensor 7 none), .tensor 9 (some [])]
     = some [.tensor 1 (some [.const 2]), .tensor 7 none, .tensor 9 (some [])] := by decide
 example : seqMapFormals (.tensor 1 none) [] = none := by decide
+
+section ML
+open C06M MLOnnx
+
+/-! ### The ml operators whose inference spox replaces: agreement with / refinement of ONNX's answer -/
+
+/-- Binarizer: the constructor reports exactly what ONNX does - the input's type -/
+theorem ml_binarizer_agrees (x : ITy) : inferBinarizer x = .ok [x] := rfl
+
+/-- Scaler: whenever the constructor accepts a typed input, the output is typed float - it refines
+    ONNX's `tensor(float)` (and rejecting a mismatched feature count is "rejects more") -/
+theorem ml_scaler_refines (sc off : Option Nat) (t : C06M.Ty) :
+    mlRefines (inferScaler sc off (some t)) (onnxMlElem "Scaler" t.e) = true := by
+  simp only [inferScaler, onnxMlElem]
+  cases sc with
+  | none => cases off <;> simp [mlRefines]
+  | some a =>
+    cases off with
+    | none => simp [mlRefines]
+    | some b =>
+      by_cases h1 : featureMismatch a t.s = true
+      · simp [h1, mlRefines]
+      · by_cases h2 : featureMismatch b t.s = true
+        · simp [h1, h2, mlRefines]
+        · simp [h1, h2, mlRefines, mlTyped]
+
+/-- LinearRegressor, input of known rank: typed float (refines ONNX) ... -/
+theorem ml_linear_regressor_refines_partial (n : Nat) (e : Elem) (ds : List C06M.Dim) :
+    mlRefines (inferLinearRegressor n (tensor e ds)) (onnxMlElem "LinearRegressor" e) = true := by
+  simp only [inferLinearRegressor, ranked, tensor, onnxMlElem]
+  match ds with
+  | [] => simp [mlRefines, mlTyped, tensor]
+  | [_] => simp [mlRefines, mlTyped, tensor]
+  | [_, _] => simp [mlRefines, mlTyped, tensor]
+  | _ :: _ :: _ :: _ => simp [mlRefines]
+
+/-- ... but for an input of unknown rank the output is left untyped although ONNX infers
+    `tensor(float)` (known finding `patched-types-untyped:LinearRegressor`) -/
+theorem ml_linear_regressor_unranked_counterexample :
+    inferLinearRegressor 1 (some ⟨.f32, none⟩) = .ok [none]
+    ∧ mlRefines (inferLinearRegressor 1 (some ⟨.f32, none⟩)) (onnxMlElem "LinearRegressor" .f32) = false := by
+  decide
+
+/-- Imputer, known rank: the input's type (refines ONNX's "element type of X, no shape") ... -/
+theorem ml_imputer_refines_partial (f i : Option Nat) (e : Elem) (ds : List C06M.Dim) :
+    mlRefines (inferImputer f i (tensor e ds)) (onnxMlElem "Imputer" e) = true := by
+  simp only [inferImputer, ranked, tensor, onnxMlElem]
+  split
+  · simp [mlRefines]
+  · split <;> simp [mlRefines, mlTyped]
+
+theorem ml_imputer_unranked_counterexample :
+    mlRefines (inferImputer (some 1) none (some ⟨.f32, none⟩)) (onnxMlElem "Imputer" .f32) = false := by
+  decide
+
+/-- Normalizer: agrees with ONNX for a float input ... -/
+theorem ml_normalizer_refines_partial (ok : Bool) (s : Option (List C06M.Dim)) :
+    mlRefines (inferNormalizer ok (some ⟨.f32, s⟩)) (onnxMlElem "Normalizer" .f32) = true := by
+  cases ok <;> simp [inferNormalizer, mlRefines, mlTyped, onnxMlElem]
+
+/-- ... and contradicts it for every other element type: the input's element type is reported, ONNX
+    (and the operator) produce float (known finding `patched-types-contradicts:Normalizer`) -/
+theorem ml_normalizer_contradicts_counterexample :
+    inferNormalizer true (tensor .f64 [.named "N", .const 5]) = .ok [tensor .f64 [.named "N", .const 5]]
+    ∧ mlRefines (inferNormalizer true (tensor .f64 [.named "N", .const 5])) (onnxMlElem "Normalizer" .f64) = false := by
+  decide
+
+example : mlRefines (inferScaler (some 1) (some 1) (some ⟨.i32, some [.const 3, .const 3]⟩)) .f32 = true := by decide
+example : inferScaler (some 1) (some 1) (some ⟨.i32, some [.const 3, .const 3]⟩) = .ok [tensor .f32 [.const 3, .const 3]] := by decide
+
+end ML
 
 end C05
